@@ -250,7 +250,12 @@ def _single_defs(fn: ast.AST) -> Dict[str, ast.AST]:
         elif isinstance(st, ast.comprehension):
             for n in target_names(st.target):
                 counts[n] = counts.get(n, 0) + 2
-    out = {n: v for n, v in vals.items() if counts.get(n) == 1 and n not in params}
+    def _accumulator(v: ast.AST) -> bool:
+        """An empty container literal: the name denotes an object that is filled later, not the value `[]`."""
+        return (isinstance(v, (ast.List, ast.Set)) and not v.elts) or (isinstance(v, ast.Dict) and not v.keys) or (
+            isinstance(v, ast.Call) and not v.args and not v.keywords and norm(v.func) in ("list", "dict", "set"))
+
+    out = {n: v for n, v in vals.items() if counts.get(n) == 1 and n not in params and not _accumulator(v)}
     try:
         fn._single_defs = out  # type: ignore[attr-defined]
     except Exception:
@@ -295,6 +300,17 @@ class _SubstNames(ast.NodeTransformer):
 
 class _UnrollComps(ast.NodeTransformer):
     """[f(e) for e in (A, B, C)] -> [f(A), f(B), f(C)]: a list comprehension over a literal sequence is that list."""
+
+    def visit_Call(self, node: ast.Call):
+        # tuple(f(e) for e in (A, B))  ->  (f(A), f(B));  list(...) likewise
+        self.generic_visit(node)
+        if isinstance(node.func, ast.Name) and node.func.id in ("tuple", "list") and len(node.args) == 1 and not node.keywords and isinstance(node.args[0], (ast.GeneratorExp, ast.List)):
+            a = node.args[0]
+            if isinstance(a, ast.GeneratorExp):
+                a = self.visit_ListComp(ast.copy_location(ast.ListComp(elt=a.elt, generators=a.generators), a))
+            if isinstance(a, ast.List):
+                return ast.copy_location((ast.Tuple if node.func.id == "tuple" else ast.List)(elts=a.elts, ctx=ast.Load()), node)
+        return node
 
     def visit_ListComp(self, node: ast.ListComp):
         self.generic_visit(node)
@@ -442,6 +458,16 @@ def list_builds(fn: ast.AST, name: str) -> List[ListBuild]:
         if isinstance(st, ast.Assign) and any(norm(t) == name for t in st.targets) and isinstance(st.value, ast.ListComp):
             c = st.value
             out.append(ListBuild(name, c.elt, list(c.generators), [i for g in c.generators for i in g.ifs], c))
+        elif isinstance(st, ast.Assign) and any(norm(t) == name for t in st.targets) and isinstance(st.value, ast.Call) and norm(st.value.func) == "list" and len(st.value.args) == 1 \
+                and isinstance(st.value.args[0], ast.Call) and norm(st.value.args[0].func) == "map" and len(st.value.args[0].args) == 2:
+            # list(map(f, S))  ==  [f(_x) for _x in S]
+            f_, seq_ = st.value.args[0].args
+            var = ast.Name(id="_x", ctx=ast.Load())
+            gen = ast.comprehension(target=ast.Name(id="_x", ctx=ast.Store()), iter=seq_, ifs=[], is_async=0)
+            elt = ast.copy_location(ast.Call(func=f_, args=[var], keywords=[]), st.value)
+            comp = ast.copy_location(ast.ListComp(elt=elt, generators=[gen]), st.value)
+            comp._parent = st  # type: ignore[attr-defined]
+            out.append(ListBuild(name, elt, [gen], [], comp))
         elif isinstance(st, ast.Call) and isinstance(st.func, ast.Attribute) and st.func.attr == "extend" and norm(st.func.value) == name and st.args \
                 and isinstance(st.args[0], (ast.GeneratorExp, ast.ListComp)):
             c = st.args[0]
@@ -647,6 +673,16 @@ def reaching_def(fn: ast.AST, name: str, at: ast.AST, unpack_calls: bool = False
             synth = v.elts[k]
         elif isinstance(v, ast.Call) and unpack_calls:
             synth = ast.Subscript(value=v, slice=ast.Constant(value=k), ctx=ast.Load())
+        elif isinstance(v, ast.Subscript):
+            synth = ast.Subscript(value=v, slice=ast.Constant(value=k), ctx=ast.Load())   # a, b = X.shape[-2:]  ->  a = X.shape[-2:][0]
+        elif isinstance(v, ast.Name) and v.id != name:
+            # a, b = pair  with  pair = (u, w) / pair = f(...)
+            inner = reaching_def(fn, v.id, last, unpack_calls)
+            iv = inner.value if inner is not None else None
+            if isinstance(iv, (ast.Tuple, ast.List)) and len(iv.elts) == len(names):
+                synth = iv.elts[k]
+            elif isinstance(iv, ast.Call) and unpack_calls:
+                synth = ast.Subscript(value=iv, slice=ast.Constant(value=k), ctx=ast.Load())
         if synth is None:
             return None
         fake = ast.Assign(targets=[ast.Name(id=name, ctx=ast.Store())], value=synth, lineno=last.lineno, col_offset=last.col_offset)
@@ -827,6 +863,18 @@ def _literal_items(fn: ast.AST, it: ast.AST) -> Optional[List[List[ast.AST]]]:
         if isinstance(d, ast.Dict) and all(k is not None for k in d.keys):
             return [[k, v] for k, v in zip(d.keys, d.values)]
         return None
+    if isinstance(it, ast.Call) and norm(it.func) == "zip" and len(it.args) >= 2 and not it.keywords:
+        # zip(<literal of n items>, X, ...): iteration k sees (item k, X[k], ...); X is assumed to have at least n items
+        lits = [lit(a) for a in it.args]
+        ns = {len(l.elts) for l in lits if isinstance(l, (ast.Tuple, ast.List))}
+        if len(ns) == 1 and all(isinstance(l, (ast.Tuple, ast.List)) or isinstance(a, ast.Name) for l, a in zip(lits, it.args)):
+            n = ns.pop()
+            rows = []
+            for k in range(n):
+                rows.append([l.elts[k] if isinstance(l, (ast.Tuple, ast.List)) else ast.Subscript(value=a, slice=ast.Constant(value=k), ctx=ast.Load())
+                             for l, a in zip(lits, it.args)])
+            return rows
+        return None
     d = lit(it)
     if isinstance(d, (ast.Tuple, ast.List)):
         return [[e] for e in d.elts]
@@ -863,6 +911,8 @@ def unroll_literal_loops(fn: ast.AST) -> ast.AST:
             for fld in ("body", "orelse", "finalbody"):
                 if hasattr(st, fld) and isinstance(getattr(st, fld), list) and not isinstance(st, (ast.For, ast.While, ast.FunctionDef, ast.ClassDef)):
                     setattr(st, fld, unroll_block(getattr(st, fld)))
+            if isinstance(st, (ast.For, ast.While)):
+                keep_loop = True
             if isinstance(st, ast.For):
                 items = _literal_items(new, st.iter)
                 maps = [bind(st.target, v) for v in items] if items is not None else None
@@ -888,6 +938,9 @@ def unroll_literal_loops(fn: ast.AST) -> ast.AST:
                             ast.copy_location(chain, single)
                         out.append(chain)
                         continue
+            if isinstance(st, (ast.For, ast.While)):   # a loop that stays a loop: literal loops inside it are still unrolled
+                st.body = unroll_block(st.body)
+                st.orelse = unroll_block(st.orelse)
             out.append(st)
         return out
 
